@@ -67,6 +67,8 @@ fn identity_rule(text: &str, class: &str, ws: &[CW], a: &mut Acc) {
     }
 }
 
+fn xm_c(b: SegBits) -> bool { model::feat(b, 2) == Some(false) }
+fn xm_v(b: SegBits) -> bool { model::feat(b, 0) == Some(false) && model::feat(b, 1) == Some(true) && model::feat(b, 2) == Some(true) }
 /// (c) `a > i / X=1 _ 1`: fires exactly between identical neighbours
 fn sandwich(x: &str, ws: &[CW], a: &mut Acc) {
     let text = format!("a > i / {}=1 _ 1", x);
@@ -80,9 +82,15 @@ fn sandwich(x: &str, ws: &[CW], a: &mut Acc) {
         // reference: left to right, left neighbour from the rewritten prefix
         let mut e = w.clone();
         let mut fired = false;
-        if x == "%" {
+        if x == "%" || x.starts_with('⟨') {
+            // a structure also fixes the shape of the captured syllable: one item per segment, C = [-syll], V = vowel
+            let shape_ok = |sy: &CSyl| -> bool {
+                if x == "%" { return true; }
+                let items: Vec<char> = x.trim_start_matches('⟨').trim_end_matches('⟩').chars().collect();
+                sy.segs.len() == items.len() && sy.segs.iter().zip(items.iter()).all(|(b, it)| if *it == 'C' { xm_c(*b) } else { xm_v(*b) })
+            };
             for s in 1..e.len().saturating_sub(1) {
-                if e[s].segs.len() == 1 && e[s].segs[0] == sa && e[s - 1] == e[s + 1] { e[s].segs[0] = si; fired = true; }
+                if e[s].segs.len() == 1 && e[s].segs[0] == sa && shape_ok(&e[s - 1]) && e[s - 1] == e[s + 1] { e[s].segs[0] = si; fired = true; }
             }
         } else {
             let n: usize = e.iter().map(|s| s.segs.len()).sum();
@@ -173,7 +181,7 @@ fn sandwich_mod(rule: usize, a: &mut Acc) {
 pub fn run() -> i32 {
     let mut r = Report::new("C07");
     let thorough = r.thorough();
-    r.rule = "(a) `X1=1 .. Xk=k > 1 .. k`, Xi in {[], [+cons], C, V, %, ⟨...⟩, ⟨CV⟩, %:[+stress]}, with no environment and with every one-item-per-side environment over {p,t,a,i,[+cons],C,V,[+hi],{p,a},$,#}; (b) `[αF] > [αF]`, `[-αF] > [-αF]` for 26 features, `[αN] > [αN]` for lab/cor/dor/phr/place, alphas on long / overlong / stress / sec.stress alone and in pairs, on matrices, `%`, groups and IPA; x decorated words of W(I4,L) (long segments, stress, tones) and, for (b), every one-segment word over the segment universe; oracle: result == input. (c) `a > i / X=1 _ 1` for X in {[], C, V, [+cons], %} vs a reference that fires exactly between identical neighbours. (e) `a > i / X=1 _ 1:[-long]` (and `[-stress]`) on /x a y/ for x, y over 31 phones incl. secondary-articulation twins: fires iff x == y. (f) identity rules that use a variable again inside the input (`X=1 1 > 1 1`, `X=1 Y=2 1 2 > 1 2 1 2`, ...). (d) a variable inside a structure of the context (`C=1 a > i / _ ⟨1 a⟩`, before-context, after an ellipsis, before an ellipsis) vs the literal rules applied one after the other. Non-trivial = rule compiled, call returned Ok.".into();
+    r.rule = "(a) `X1=1 .. Xk=k > 1 .. k`, Xi in {[], [+cons], C, V, %, ⟨...⟩, ⟨CV⟩, %:[+stress]}, with no environment and with every one-item-per-side environment over {p,t,a,i,[+cons],C,V,[+hi],{p,a},$,#}; (b) `[αF] > [αF]`, `[-αF] > [-αF]` for 26 features, `[αN] > [αN]` for lab/cor/dor/phr/place, alphas on long / overlong / stress / sec.stress alone and in pairs, on matrices, `%`, groups and IPA; x decorated words of W(I4,L) (long segments, stress, tones) and, for (b), every one-segment word over the segment universe; oracle: result == input. (c) `a > i / X=1 _ 1` for X in {[], C, V, [+cons], %, ⟨CV⟩, ⟨CVC⟩, ⟨VC⟩, ⟨V⟩} vs a reference that fires exactly between identical neighbours. (e) `a > i / X=1 _ 1:[-long]` (and `[-stress]`) on /x a y/ for x, y over 31 phones incl. secondary-articulation twins: fires iff x == y. (f) identity rules that use a variable again inside the input (`X=1 1 > 1 1`, `X=1 Y=2 1 2 > 1 2 1 2`, ...). (d) a variable inside a structure of the context (`C=1 a > i / _ ⟨1 a⟩`, before-context, after an ellipsis, before an ellipsis) vs the literal rules applied one after the other. Non-trivial = rule compiled, call returned Ok.".into();
     let l = if thorough { 4 } else { 3 };
     let ws = words(l);
     let kmax = if thorough { 3 } else { 2 };
@@ -205,9 +213,19 @@ pub fn run() -> i32 {
     r.guard(tb.rejected == 0, "(b) every alpha rule compiles");
     // (c)
     let mut tc = Acc::default();
-    let xs = ["[]", "C", "V", "[+cons]", "%"];
+    let xs = ["[]", "C", "V", "[+cons]", "%", "⟨CV⟩", "⟨CVC⟩", "⟨VC⟩", "⟨V⟩"];
     let wc = words(if thorough { 5 } else { 4 });
-    par_fold(xs.len(), 1, Acc::default, |i, a| sandwich(xs[i], &wc, a), |a| tc.merge(a));
+    // words σ1 . a . σ2 for σ1, σ2 over every syllable of the shapes V, CV, VC, CVC on {p,t,a,i} (mirror images such as tak / kat included),
+    // with four tone / stress decorations of the outer syllables
+    let (cs, vs) = ([seg("p"), seg("t")], [seg("a"), seg("i")]);
+    let mut sylls: Vec<Vec<SegBits>> = vec![];
+    for v in vs { sylls.push(vec![v]); for c in cs { sylls.push(vec![c, v]); sylls.push(vec![v, c]); for d in cs { sylls.push(vec![c, v, d]); } } }
+    let mut wstruct: Vec<CW> = vec![];
+    for a1 in &sylls { for a2 in &sylls { for d in 0..4 {
+        let (t1, t2, s1, s2) = match d { 0 => (0, 0, 0, 0), 1 => (5, 5, 1, 1), 2 => (5, 51, 0, 0), _ => (0, 0, 1, 2) };
+        wstruct.push(vec![CSyl { segs: a1.clone(), stress: s1, tone: t1 }, CSyl { segs: vec![seg("a")], stress: 0, tone: 0 }, CSyl { segs: a2.clone(), stress: s2, tone: t2 }]);
+    } } }
+    par_fold(xs.len(), 1, Acc::default, |i, a| { sandwich(xs[i], &wc, a); if xs[i] == "%" || xs[i].starts_with('⟨') { sandwich(xs[i], &wstruct, a); } }, |a| tc.merge(a));
     r.boxes.push(json!({"box": "(c) variable in context", "rules": xs.len(), "words": wc.len(), "evaluated": tc.evals, "fired": tc.fire, "not_fired": tc.nofire}));
     r.guard(tc.fire > 0 && tc.nofire > 0, "(c) fires on some words and not on others");
     // (f) a variable used again inside the input: `X=1 1 > 1 1`, `X=1 Y=2 1 2 > 1 2 1 2`, ... restate their input as well; the second
@@ -251,7 +269,7 @@ pub fn replay(case: &Value) -> Result<String, String> {
     let mut a = Acc::default();
     match case["kind"].as_str() {
         Some("identity") => { let w = cw_from_json(&case["word"]).ok_or("no word")?; identity_rule(case["rule"].as_str().ok_or("no rule")?, case["class"].as_str().unwrap_or(""), &[w], &mut a); }
-        Some("sandwich") => { let w = cw_from_json(&case["word"]).ok_or("no word")?; sandwich(match case["x"].as_str() { Some("[]") => "[]", Some("C") => "C", Some("V") => "V", Some("[+cons]") => "[+cons]", _ => "%" }, &[w], &mut a); }
+        Some("sandwich") => { let w = cw_from_json(&case["word"]).ok_or("no word")?; sandwich(match case["x"].as_str() { Some("[]") => "[]", Some("C") => "C", Some("V") => "V", Some("[+cons]") => "[+cons]", Some("⟨CV⟩") => "⟨CV⟩", Some("⟨CVC⟩") => "⟨CVC⟩", Some("⟨VC⟩") => "⟨VC⟩", Some("⟨V⟩") => "⟨V⟩", _ => "%" }, &[w], &mut a); }
         Some("sandwichmod") => { sandwich_mod(case["rule"].as_u64().unwrap_or(0) as usize, &mut a); let w = cw_from_json(&case["word"]).ok_or("no word")?; a.viols.retain(|v| v.key.ends_with(&format!("|{}", show_cw(&w)))); }
         Some("varstruct") => { let w = cw_from_json(&case["word"]).ok_or("no word")?; var_in_structure(case["shape"].as_u64().unwrap_or(0) as usize, &[w], &mut a); }
         _ => return Err("unknown case".into()),
